@@ -168,7 +168,7 @@ def c15():
             todo = list(chunk)
             st = ge = 0
             fails = []
-            while todo:
+            while todo and len(fails) < 4:     # (a defect that shows everywhere is reported a few times per chunk, not once per case)
                 p = work.path("print_%d_%d.json" % (k, len(todo)))
                 json.dump([{x: c[x] for x in ("t", "ann", "defs", "toks", "reparsed", "printed")} for c in todo], open(p, "w"))
                 r = vlib.tlc("Print", CONFORM_CFG, env={"VERIF_CASES": p}, workers=1, timeout=1500, work=work)
